@@ -259,7 +259,7 @@ func c04Queue(c *vx.Ctx) {
 
 func runC04(c *vx.Ctx) {
 	core.VScaleParams(core.VR1)
-	c.Rule = "queue: BFS over push/pop/commit+reopen/copy histories of the real ETX queue vs a FIFO list from 3 preset indices; routing: all block-order words with ETX-emitting activity under an id monitor; inclusion: single mutations of the inbound ETX list of own blocks"
+	c.Rule = "queue: BFS over push/pop/commit+reopen/copy histories of the real ETX queue vs a FIFO list from 3 preset indices; routing: all block-order words with ETX-emitting activity under an id monitor; inclusion: single mutations of the inbound ETX list of own blocks; every routing word also with a hostile peer's forged bundles arriving first and with every block mined as two siblings (all three walks must execute the same ETX list); two-zones: all words over zone/region/prime blocks of two zones, cross-zone transactions and sibling switches on a two-zone node; map-order: routing words under 12 fixed map-iteration draws"
 	c.Assume("scaled protocol constants: " + fmt.Sprint(core.VScaled))
 	if c.Wants("queue") {
 		c04Queue(c)
